@@ -8,7 +8,7 @@ STUBS = "stubs: os.walk/scandir/isdir/isfile/exists/makedirs/abspath (virtual tr
 
 S1 = ("in", [], ["b.cmake", "A.CMAKE", "c.txt", "a-1.x.cmake", "a.cmake"])      # a-1.x.cmake < a.cmake by name, > by (stem, ext)
 S2 = ("in", [("z0", [], ["x.cmake"]), ("y1", [], ["x.cmake", "n.txt"])], ["b.cmake", "c.txt"])
-S2q = ("in", [("z0", [], ["x.cmake"]), ("y1", [], ["x.cmake"])], ["b.v2.cmake"])      # a base name with an inner dot
+S2q = ("in", [("z0", [], ["x.cmake"]), ("y1", [], ["x.cmake", "w.cmake"])], ["b.v2.cmake"])      # a base name with an inner dot
 S2b = ("in", [("z0", [], ["n.txt"]), ("y1", [], ["M.CMake", "m.cmake"]), ("x2", [], ["q.cmake"])], ["b.cmake"])
 S3 = ("in", [("d1", [("d2", [("d3", [], ["k.cmake"])], ["j.x.cmake"])], ["i.cmake"])], ["h.cmake"])
 S4 = ("in", [("mid", [("deep", [], ["k.1.cmake"])], ["n.txt"])], ["h.cmake"])
